@@ -150,6 +150,53 @@ def run(ctx):
             if cli != checks[-1][1][names.index("sha256")]:
                 ctx.report({"kind": "digest", "site": "cli"}, f"sha256sum disagrees for {rel}", {"file": rel})
         shutil.rmtree(root)
+    # ---- … and after multi-session histories (sub-directories written again, nested lists, multi-writer calls): every
+    # checksum recorded anywhere in the tree, found by walking the JSON documents themselves
+    from harness.checks import tree_common as T
+    hist_files = 0
+    for i in range(ctx.pick(4, 16)):
+        fmt = ["fb", "npz", "tfrec"][i % 3]
+        names = rng.sample(ALGOS, rng.choice([1, 2, 3]))
+        root = d / f"hist{i}"
+        hist = T.gen_history(rng, rng.choice([2, 3, 4]), 2)
+        if i % 2 == 0:      # make sure some sub-directory is written twice
+            hist.append({"kind": "filler", "sub": "a", "writes": [[0, 3, False]], "reopen": True})
+            hist.append({"kind": "filler", "sub": "a", "writes": [[0, 1, False]], "reopen": bool(i % 4)})
+        orig_mk = sp.mk
+        def mk(path, **kw):
+            kw["hashes"] = names; return orig_mk(path, **kw)
+        sp.mk = mk
+        try:
+            recs, _ = T.run_history(root, fmt, 2, hist)
+        finally:
+            sp.mk = orig_mk
+        def verify(rel, got):
+            nonlocal hist_files
+            hist_files += 1
+            f = root / rel
+            exp = tuple(independent(a, f.read_bytes()) for a in names) if f.is_file() else None
+            if exp is None or tuple(got) != exp:
+                ctx.report({"kind": "digest", "site": "recorded-after-history"},
+                           f"after {len(hist)} sessions the checksums recorded for {rel} are not the standard digests of its bytes ({fmt}, {names})",
+                           {"format": fmt, "names": names, "file": str(rel), "got": list(got), "expected": list(exp) if exp else None, "history": hist})
+                return False
+            return True
+        def walk(list_rel):
+            doc = json.loads((root / list_rel).read_text())
+            for sh in doc.get("shard_files", []):
+                for fi in sh["file_infos"]:
+                    verify(fi["file_path"], fi["hash_checksums"])
+            for ch in doc.get("children_shard_lists", []):
+                fi = ch["shard_list_info_file"]
+                if verify(fi["file_path"], fi["hash_checksums"]):
+                    walk(fi["file_path"])
+        info = json.loads((root / "dataset_info.json").read_text())
+        for split, rec in info.get("splits", {}).items():
+            fi = rec["shard_list_info_file"]
+            if verify(fi["file_path"], fi["hash_checksums"]):
+                walk(fi["file_path"])
+        shutil.rmtree(root, ignore_errors=True)
+    ctx.cov["files_verified_after_histories"] = hist_files
     mism = ctx.cov.get("correspondence_mismatch")
     if mism and not ctx.violations:
         ctx.report({"kind": "correspondence"}, "model M-HASH no longer matches the slices hash_checksums feeds",
@@ -159,7 +206,8 @@ def run(ctx):
         "evaluations": len(cases) + e2e, "distinct_nontrivial": len(shapes),
         "rule": "file sizes around multiples of the read buffer x random algorithm tuples (with repetition) x short-read "
                 "patterns; distinct = (size class, #slices, #names, short-read?) tuples; plus recorded digests of every "
-                "metadata/shard file of small datasets compared with one-shot hashlib/xxhash/sha256sum",
+                "metadata/shard file of small datasets compared with one-shot hashlib/xxhash/sha256sum; and every checksum recorded anywhere "
+                "in the tree (raw JSON walk) after multi-session histories incl. sub-directories written twice",
         "traces_validated_against_impl": len(cases),
         "samples": [{"size": n, "names": nm, "wants": w[:4], "model_chunks": r["chunks"][:6]} for (p, n, nm, w), r in list(zip(cases, replies))[:4]],
         "input_distribution": {"sizes": sorted(sizes)[:40], "e2e_files": e2e},
